@@ -53,13 +53,14 @@ func (rt *runtime) newNativeFunctionObject(name, file string, line int, native n
 	o.defineOwnProperty("caller", property{
 		value: propertyGetSet{
 			rt.newNativeFunctionProperty("get", "internal", 0, func(fc FunctionCall) Value {
-				for sc := rt.scope; sc != nil; sc = sc.outer {
-					if sc.frame.fn == o {
+				self := fc.This.object()
+				for sc := fc.runtime.scope; sc != nil; sc = sc.outer {
+					if sc.frame.fn == self {
 						if sc.outer == nil || sc.outer.frame.fn == nil {
 							return nullValue
 						}
 
-						return rt.toValue(sc.outer.frame.fn)
+						return fc.runtime.toValue(sc.outer.frame.fn)
 					}
 				}
 
@@ -129,13 +130,14 @@ func (rt *runtime) newNodeFunctionObject(node *nodeFunctionLiteral, stash stashe
 	o.defineOwnProperty("caller", property{
 		value: propertyGetSet{
 			rt.newNativeFunction("get", "internal", 0, func(fc FunctionCall) Value {
-				for sc := rt.scope; sc != nil; sc = sc.outer {
-					if sc.frame.fn == o {
+				self := fc.This.object()
+				for sc := fc.runtime.scope; sc != nil; sc = sc.outer {
+					if sc.frame.fn == self {
 						if sc.outer == nil || sc.outer.frame.fn == nil {
 							return nullValue
 						}
 
-						return rt.toValue(sc.outer.frame.fn)
+						return fc.runtime.toValue(sc.outer.frame.fn)
 					}
 				}
 
